@@ -38,9 +38,15 @@ def gen_event(rng, size_hint):
 
 
 def gen_file(rng, tier):
-    kind = rng.below(8)
+    kind = rng.below(9)
     if kind == 0:
         return []
+    if kind == 8:     # an event whose text is below 64 KiB but whose rendering is not (plain text just under the cap, or markup that grows when escaped)
+        evs = [gen_event(rng, rng.pick([10, 200])) for _ in range(rng.rand_range(1, 4))]
+        big = gen_event(rng, 10)
+        big["Message"] = rng.pick(["a" * 65000, "a" * 65400, "&" * 20000, "<" * 17000, "\"" * 12000 + "x" * 2000])
+        evs.insert(rng.below(len(evs) + 1), big)
+        return evs
     if kind == 1:     # one oversize event among normal ones
         evs = [gen_event(rng, rng.pick([10, 200])) for _ in range(rng.rand_range(0, 4))]
         evs.insert(rng.below(len(evs) + 1), gen_event(rng, rng.pick([CAP - 1500, CAP, CAP + 500, 3 * CAP])))
@@ -94,6 +100,34 @@ def parse_doc(body):
         p2.Parse("<r>" + inner + "</r>", True)
         out.append(params)
     return out
+
+
+def single_reader(chk, binp):
+    """at most once also needs: one reader per event directory. The agent starts its event threads (logger, reader, status) when
+    provisioning finishes; whatever readiness reports, key-latch resets and deadlines follow, it must not start them a second time
+    (seen through the H3 trace of the provision actor: SetEventLogThreadsInitialized marks each start)"""
+    import e2e
+    if not e2e.in_netns():
+        return
+    stack = e2e.Stack(binp)
+    try:
+        stack.ctl("prov trace")
+        seq = ["ready r", "ready k", "ready l", "reset", "ready k", "timeup", "reset", "reset", "ready k", "ready r", "timeup", "ready k"]
+        for s_ in seq:
+            stack.ctl("prov call " + s_)
+            time.sleep(0.02)
+        time.sleep(0.2)
+        tr = stack.ctl("prov trace").split(",")
+        starts = tr.count("SetEventLogThreadsInitialized")
+        chk.case(nontrivial_key=("single-reader", starts))
+        chk.count("event_thread_starts", starts)
+        if starts > 1:
+            chk.violation("the event reader was started %d times in one process: two readers over one event directory upload events twice" % starts,
+                          {"provision_calls": seq}, expected="started once", observed=starts, finding_key="second-event-reader")
+        elif starts == 0:
+            chk.disagreement("telemetry-batches", {"provision_calls": seq}, "event threads started once provisioning finished", "never started")
+    finally:
+        stack.close()
 
 
 def run(chk):
@@ -234,6 +268,7 @@ def run(chk):
             proc.kill()
         fab.close()
         shutil.rmtree(sd, ignore_errors=True)
+    single_reader(chk, binp)
     for k in ("dropped_oversize", "batches"):
         if chk.counts.get(k, 0) == 0:
             chk.broken.append({"kind": "gate", "name": "generator sanity", "why": f"{k} never exercised"})
